@@ -6,7 +6,11 @@ import TempestVerif.Gen.ReweightSrc
   `Gen/ReweightSrc.lean` is regenerated from the source on every run of the check (translator G10): every comparison and every
   arithmetic expression on temperatures of `_find_beta_upper_limit`, `_find_beta_bisection` and `Reweighter.run` compiled to a
   term over `Sc α` — literals (`1e10`, `0.5`, `1.0`, `0.0`) and comparison operators included — plus the statement skeleton of
-  the five methods.  The theorems below hold by `rfl` for EVERY scalar type, `Float` (what the driver executes) included: the
+  the five methods.  The parameters of every generated term are listed in the order the SOURCE binds them (function parameters in signature order,
+  then locals by first assignment, then `__init__`'s attributes) — not in order of appearance — so an operand swap in the source
+  (`beta_high - beta_low` → `beta_low - beta_high`, `ess >= target` → `target >= ess`, even the value-identical `(lo + hi) * 0.5`)
+  changes the term and breaks a theorem here.
+  The theorems below hold by `rfl` for EVERY scalar type, `Float` (what the driver executes) included: the
   model's definitions unfold to the generated terms.  A change of a literal, of a comparison operator or of an operand order in
   the source changes the generated term and breaks the corresponding theorem; a change of control flow (which branch assigns
   what, what is returned, order/arguments of the oracle calls, state keys written) changes a skeleton table.
@@ -20,7 +24,7 @@ variable {α : Type} [Sc α] {W : Type}
 
 /-- `(hi + lo) * 0.5` is the source's midpoint expression in both search functions -/
 theorem C05_src_mid (hi lo : α) :
-    mid hi lo = Gen.ReweightSrc.upMid hi lo ∧ mid hi lo = Gen.ReweightSrc.bisMid hi lo := ⟨rfl, rfl⟩
+    mid hi lo = Gen.ReweightSrc.upMid lo hi ∧ mid hi lo = Gen.ReweightSrc.bisMid lo hi := ⟨rfl, rfl⟩
 
 /-- the replacement of a non-finite metric is the source's literal, in both modes -/
 theorem C05_src_big : (big : α) = Gen.ReweightSrc.bisNonfiniteDyn ∧ (big : α) = Gen.ReweightSrc.bisNonfiniteEss := ⟨rfl, rfl⟩
@@ -28,20 +32,20 @@ theorem C05_src_big : (big : α) = Gen.ReweightSrc.bisNonfiniteDyn ∧ (big : α
 /-- one pass of the `while` loop of `_find_beta_upper_limit` -/
 theorem C05_src_upLoop_succ (M : α → W × α × α) (target tol : α) (n : Nat) (lo hi : α) :
     upLoop M target tol (n+1) lo hi =
-      if Gen.ReweightSrc.upWhileTest hi lo tol then
-        let m := Gen.ReweightSrc.upMid hi lo
-        let r := if Gen.ReweightSrc.upRaiseTest (M m).2.1 target then upLoop M target tol n m hi else upLoop M target tol n lo m
+      if Gen.ReweightSrc.upWhileTest lo hi tol then
+        let m := Gen.ReweightSrc.upMid lo hi
+        let r := if Gen.ReweightSrc.upRaiseTest target (M m).2.1 then upLoop M target tol n m hi else upLoop M target tol n lo m
         { r with steps := r.steps + 1, calls := m :: r.calls }
       else ⟨lo, hi, 0, .upLoop, []⟩ := rfl
 
 theorem C05_src_upLoop_zero (M : α → W × α × α) (target tol : α) (lo hi : α) :
-    upLoop M target tol 0 lo hi = ⟨lo, hi, 0, if Gen.ReweightSrc.upWhileTest hi lo tol then .upFuel else .upLoop, []⟩ := rfl
+    upLoop M target tol 0 lo hi = ⟨lo, hi, 0, if Gen.ReweightSrc.upWhileTest lo hi tol then .upFuel else .upLoop, []⟩ := rfl
 
 /-- `_find_beta_upper_limit`: both early returns and the initial bracket -/
 theorem C05_src_upperLimit (M : α → W × α × α) (target tol : α) (fuel : Nat) (prev : α) :
     upperLimit M target tol fuel prev =
-      if Gen.ReweightSrc.upStayTest (M prev).2.1 target then ⟨prev, Gen.ReweightSrc.upInitHigh, 0, .upStay, [prev]⟩
-      else if Gen.ReweightSrc.upOneTest (M Gen.ReweightSrc.upSecondArg).2.1 target then
+      if Gen.ReweightSrc.upStayTest target (M prev).2.1 then ⟨prev, Gen.ReweightSrc.upInitHigh, 0, .upStay, [prev]⟩
+      else if Gen.ReweightSrc.upOneTest target (M Gen.ReweightSrc.upSecondArg).2.1 then
         ⟨Gen.ReweightSrc.upOneReturn, Gen.ReweightSrc.upInitHigh, 0, .upOne, [prev, Gen.ReweightSrc.upSecondArg]⟩
       else
         let r := upLoop M target tol fuel prev Gen.ReweightSrc.upInitHigh
@@ -50,8 +54,8 @@ theorem C05_src_upperLimit (M : α → W × α × α) (target tol : α) (fuel : 
 /-- `if metric_converged or beta_converged or beta == 1.0` -/
 theorem C05_src_bisStop (m target tolE tolB bmin bmax b : α) :
     bisStop m target tolE tolB bmin bmax b =
-      if Gen.ReweightSrc.bisMetricConv m target tolE then some .bisMetric
-      else if Gen.ReweightSrc.bisBetaConv bmax bmin tolB then some .bisBeta
+      if Gen.ReweightSrc.bisMetricConv target m tolE then some .bisMetric
+      else if Gen.ReweightSrc.bisBetaConv bmin bmax tolB then some .bisBeta
       else if Gen.ReweightSrc.bisOneTest b then some .bisOne
       else none := rfl
 
@@ -65,12 +69,12 @@ theorem C05_src_bisVal (M : α → W × α × α) (fin : α → Bool) (dyn : Boo
 /-- which end of the bracket moves: ESS mode `if m < target: beta_max = beta else: beta_min = beta`,
     volume-variation mode `if m < target: beta_min = beta else: beta_max = beta` (skeleton rows 0.5e.0t.* / 0.5e.0e.*) -/
 theorem C05_src_bisRaise (dyn : Bool) (m target : α) :
-    bisRaise dyn m target = if dyn then Gen.ReweightSrc.bisDynTest m target else !(Gen.ReweightSrc.bisEssTest m target) := rfl
+    bisRaise dyn m target = if dyn then Gen.ReweightSrc.bisDynTest target m else !(Gen.ReweightSrc.bisEssTest target m) := rfl
 
 /-- the bisection step itself -/
 theorem C05_src_bisect_succ (M : α → W × α × α) (fin : α → Bool) (dyn : Bool) (target tolE tolB : α) (n : Nat) (bmin bmax : α) :
     bisect M fin dyn target tolE tolB (n+1) bmin bmax =
-      (let b := Gen.ReweightSrc.bisMid bmax bmin
+      (let b := Gen.ReweightSrc.bisMid bmin bmax
        match bisStop (bisVal M fin dyn b) target tolE tolB bmin bmax b with
        | some t => ⟨b, (M b).1, (M b).2.1, 0, t, [b]⟩
        | Option.none =>
@@ -81,14 +85,14 @@ theorem C05_src_bisect_succ (M : α → W × α × α) (fin : α → Bool) (dyn 
 
 /-- `ess_max = target_ess = self.ess_ratio * self.n_particles`, also the ESS recorded by the first iteration -/
 theorem C05_src_target (c : Cfg α) :
-    c.target = Gen.ReweightSrc.runTarget c.essRatio (Sc.ofNat c.nPart) ∧
-    c.target = Gen.ReweightSrc.essTarget c.essRatio (Sc.ofNat c.nPart) ∧
-    c.target = Gen.ReweightSrc.firstEss c.essRatio (Sc.ofNat c.nPart) := ⟨rfl, rfl, rfl⟩
+    c.target = Gen.ReweightSrc.runTarget (Sc.ofNat c.nPart) c.essRatio ∧
+    c.target = Gen.ReweightSrc.essTarget (Sc.ofNat c.nPart) c.essRatio ∧
+    c.target = Gen.ReweightSrc.firstEss (Sc.ofNat c.nPart) c.essRatio := ⟨rfl, rfl, rfl⟩
 
 /-- the first-iteration branch writes the source's literals -/
 theorem C05_src_first (c : Cfg α) (M : α → W × α × α) (Z : α → α) (fin : α → Bool) (prev : α) :
     run c true M Z fin prev =
-      ⟨Gen.ReweightSrc.firstBeta, .uniform c.nPart, Gen.ReweightSrc.firstEss c.essRatio (Sc.ofNat c.nPart),
+      ⟨Gen.ReweightSrc.firstBeta, .uniform c.nPart, Gen.ReweightSrc.firstEss (Sc.ofNat c.nPart) c.essRatio,
        Gen.ReweightSrc.firstLogz, .firstIter, [], [], []⟩ := rfl
 
 /-- ESS mode of `run`: the two boundary tests -/
@@ -98,9 +102,9 @@ theorem C05_src_runEss (M : α → W × α × α) (Z : α → α) (fin : α → 
        let rp := M prev
        let ru := M up.beta
        let calls := up.calls ++ [prev, up.beta]
-       if Gen.ReweightSrc.essStayTest rp.2.1 target then
+       if Gen.ReweightSrc.essStayTest target rp.2.1 then
          finalize prev rp.1 rp.2.1 (Z prev) .essStay [up.branch] calls
-       else if Gen.ReweightSrc.essUpperTest ru.2.1 target then
+       else if Gen.ReweightSrc.essUpperTest target ru.2.1 then
          finalize up.beta ru.1 ru.2.1 (Z up.beta) .essUpper [up.branch] calls
        else
          let b := bisect M fin false target tolE tolB fuel prev up.beta
@@ -110,16 +114,16 @@ theorem C05_src_runEss (M : α → W × α × α) (Z : α → α) (fin : α → 
 theorem C05_src_runDyn (M : α → W × α × α) (Z : α → α) (fin : α → Bool) (target vv tolE tolB : α) (fuel : Nat) (prev : α) :
     runDyn M Z fin target vv tolE tolB fuel prev =
       (let up := upperLimit M target tolB fuel prev
-       if Gen.ReweightSrc.dynStuckTest up.beta prev then
+       if Gen.ReweightSrc.dynStuckTest prev up.beta then
          let r := M prev
          finalize prev r.1 r.2.1 (Z prev) .dynStuck [up.branch] (up.calls ++ [prev])
        else
          let rp := M prev
          let ru := M up.beta
-         if Gen.ReweightSrc.dynUpperTest vv ru.2.2 then
+         if Gen.ReweightSrc.dynUpperTest ru.2.2 vv then
            let r := M up.beta
            finalize up.beta r.1 r.2.1 (Z up.beta) .dynUpper [up.branch] (up.calls ++ [prev, up.beta, up.beta])
-         else if Gen.ReweightSrc.dynStayTest vv rp.2.2 then
+         else if Gen.ReweightSrc.dynStayTest rp.2.2 vv then
            let r := M prev
            finalize prev r.1 r.2.1 (Z prev) .dynStay [up.branch] (up.calls ++ [prev, up.beta, prev])
          else
